@@ -315,14 +315,22 @@ def deliver (fold : Str → Str → Bool) (st : State) (m : Msg) : State × Bool
 
 inductive Op where
   | reg (addrOK : Bool) (r : Relayer)
+  | regDry (addrOK : Bool) (r : Relayer)   -- the registration handler run on a context branch that is DISCARDED
   | msg (m : Msg)
   deriving Repr, DecidableEq
 
 def applyReg (st : State) (addrOK : Bool) (r : Relayer) : State × Bool :=
   if validRegistration addrOK r then ({ st with reg := register st.reg r }, true) else (st, false)
 
+/-- A registration proposal that is only dry-run (gov `SubmitProposal` runs the routed handler on a
+`CacheContext` it throws away), or run inside a transaction / proposal execution that fails later: the store —
+the only place the registry lives — never receives it. Returns whether the handler itself succeeded. -/
+def applyRegDry (st : State) (addrOK : Bool) (r : Relayer) : State × Bool :=
+  (st, validRegistration addrOK r)
+
 def stepOp (fold : Str → Str → Bool) (st : State) : Op → State × Bool
   | .reg addrOK r => applyReg st addrOK r
+  | .regDry addrOK r => applyRegDry st addrOK r
   | .msg m => deliver fold st m
 
 /-- run a history, returning the final state and the list of (state before, op, accepted). -/
